@@ -580,6 +580,66 @@ func RunC04(r *core.Run) {
 		reuseHistory(w, rr, corpus)
 		w.Nontrivial(uint64(idx)*0x9E3779B97F4A7C15 ^ r.Seed)
 	})
+	// D2: isolation between objects that used the same caller arrays one after the other: once an
+	// object has been given other arrays (Init), the old ones belong to the caller again
+	r.Stage("isolation/recycled-arrays", r.Pick(60000, 3000000), func(w *core.Worker, idx int64) {
+		rr := core.NewRand(r.Seed, 0xC04, 9, uint64(idx))
+		A := gen.Msg(rr, gen.MsgOpts{MinHdrs: 3, MaxHdrs: 14, MultiNA: 60}).Raw
+		B := gen.Msg(rr, gen.MsgOpts{MinHdrs: 3, MaxHdrs: 14, MultiNA: 60}).Raw
+		C := gen.Msg(rr, gen.MsgOpts{MinHdrs: 3, MaxHdrs: 14, MultiNA: 60}).Raw
+		hdrs := mkHdrs([]int{1, 4, 12, 30}[rr.Intn(4)])
+		cts := mkContacts([]int{0, 2, 5}[rr.Intn(3)])
+		flags := uint8(rr.Intn(4))
+		s := sc(w)
+		var m1, m2 sipsp.PSIPMsg
+		var what string
+		pan, pmsg, stk := core.Guard(func() {
+			m1.Init(nil, hdrs, cts)
+			sipsp.ParseSIPMsg(A[:rr.Intn(len(A)+1)], 0, &m1, flags)
+			switch rr.Intn(3) {
+			case 0:
+				m1.Init(nil, nil, nil) // back to the built-in arrays
+			case 1:
+				m1.Init(nil, mkHdrs(6), mkContacts(3))
+			default:
+				m1.Init(nil, nil, mkContacts(1))
+				// (the header array was NOT given back in this variant)
+				hdrs = mkHdrs(len(hdrs))
+			}
+			sipsp.ParseSIPMsg(B, 0, &m1, flags)
+			s.v1.Reset(len(B))
+			view.Msg(&s.v1, &m1, view.MsgOpt{Opt: view.Opt{Deep: true}})
+			// the caller empties its arrays (Init wants empty ones) and hands them to another
+			// object working on another buffer
+			for i := range hdrs[:cap(hdrs)] {
+				hdrs[:cap(hdrs)][i] = sipsp.Hdr{}
+			}
+			for i := range cts[:cap(cts)] {
+				cts[:cap(cts)][i] = sipsp.PFromBody{}
+			}
+			m2.Init(nil, hdrs, cts)
+			sipsp.ParseSIPMsg(C, 0, &m2, flags)
+			s.v2.Reset(len(B))
+			view.Msg(&s.v2, &m1, view.MsgOpt{Opt: view.Opt{Deep: true}})
+			if !view.Equal(&s.v1, &s.v2) {
+				s.v1.Reset(len(B))
+				s.v1.Lab = true
+				view.Msg(&s.v1, &m1, view.MsgOpt{Opt: view.Opt{Deep: true}})
+				what = "what the first object reports changed: now " + view.Diff(&s.v2, &s.v1)
+			}
+		})
+		w.Eval(3)
+		if pan || what != "" {
+			w.Fail("isolation/recycled-arrays", func() *core.Violation {
+				v := core.V("object 1 was re-initialised with other arrays and parsed message B; then object 2 was initialised with object 1's former arrays and parsed message C: "+what+pmsg, B,
+					map[string]any{"first_message": core.Esc(A), "third_message": core.Esc(C), "hdr_cap": len(hdrs), "contact_cap": len(cts)})
+				v.Stack = stk
+				return v
+			})
+			return
+		}
+		w.Nontrivial(core.HashBytes(B) ^ core.HashBytes(C)<<1)
+	})
 	// E: isolation (race build, separate process)
 	if r.Replay == nil {
 		runIsolationChild(r)
